@@ -302,8 +302,10 @@ def gen_world(r: random.Random, profile: str) -> Dict[str, Any]:
     with_index = {"ledger": 0.5, "clock": 0.5, "index": 1.0, "logger": 0.2, "callbacks": 0.2, "hooks": 0.4,
                   "sessions": 0.15}.get(P, 0.0)
     volatile = {"clock": 0.8, "index": 0.8, "ledger": 0.3}.get(P, 0.2)
+    arb_watch = P == "index" and r.random() < 0.12
+    w.arb_watch = arb_watch
     if r.random() < with_index:
-        add_index_world(r, w, r.randint(2, 4) if P == "index" else r.randint(2, 3), equal_shares=False,
+        add_index_world(r, w, r.randint(2, 4) if P == "index" else r.randint(2, 3), equal_shares=arb_watch,
                         volatile=volatile, ticks_one=r.random() < 0.7)
     else:
         basic_markets(r, w, r.choice([1, 1, 2, 3]) if P != "clock" else r.randint(1, 4), volatile=volatile)
@@ -415,7 +417,16 @@ def events_for(r: random.Random, w: World, P: str) -> None:
             s.setdefault("events", []).append(name)
     if P == "hooks":
         gen_probes(r, w)
-    if P == "index" and r.random() < 0.15:
+    if getattr(w, "arb_watch", False):
+        # a stock arbitrage agent that only watches (threshold out of reach), with access to the index but not
+        # to every component of it
+        idx_m = [m for m in w.markets if m["index"]][0]
+        acc = [idx_m["name"]] + list(idx_m["components"])
+        if r.random() < 0.7 and len(idx_m["components"]) >= 2:
+            acc.remove(r.choice(idx_m["components"]))
+        w.add_group("ARBW", {"class": "ArbitrageAgent", "numAgents": r.randint(1, 2), "markets": acc, "cashAmount": 100000,
+                             "assetVolume": 100, "orderVolume": 1, "orderThresholdPrice": 1e9})
+    if P == "index" and r.random() < 0.15 and not getattr(w, "arb_watch", False):
         comps = sorted({c for m in w.markets if m["index"] for c in m["components"]})
         if comps:
             # a user-written share issuance on a component, at the end of some step
